@@ -20,9 +20,11 @@ EXPLANATION = ("PGSImpulseSolver::solve (the real projected Gauss-Seidel sweeps,
                "verrStart + verrApplied - [A+D](pi + piExpand) exactly; with one sweep and contacts that are updated last, UniOff => the returned normal "
                "velocity is separating; with unconditional rows only and convergence reported, |[A+D]pi - rhs|_2^2 <= kappa^2 p tol^2 with kappa the Frobenius "
                "norm of the last sweep's error-propagation matrix (computed by the spec from the pinned A, D and the solver's relaxation factor).")
-BOUNDS = ("3-8 multipliers; rank of J 2-4 (A singular when rank < m); maxIters 1-3; row sets listed in spec/C44.py ROWSETS; right-hand sides, expansion impulses, "
-          "bounds and tolerance free in groups of <= 3 variables at a time, the others and J, D, mu pinned at exact rational base points (1 quick / 3 thorough); "
-          "path budget 8 (quick) / 40 (thorough) per instance")
+BOUNDS = ("1-8 multipliers; rank of J 1-4 (A singular when rank < m); maxIters 1-3; row sets listed in spec/C44.py ROWSETS_*; right-hand sides, expansion impulses, "
+          "bounds and tolerance free in groups of <= 3 variables at a time (1 group quick, 3 thorough), the others and J, D, mu pinned at exact rational base points "
+          "(1 quick / 3 thorough); path budget 6 (quick) / 40 (thorough) per instance; products of more than 3000 terms abstracted, obligations whose own polynomial "
+          "exceeds that size are left out (listed in the evidence assumptions)")
+TECHNIQUE = ("Engine S; each query is first sent to z3 as its linear-arithmetic relaxation over monomials (unsat there is a proof), the remaining ones to QF_NRA (nlsat)")
 NOT_COVERED = ("PLUSImpulseSolver (active-set solve through FactorQTZ/LAPACK: out of reach of the instrumentation); '[A+D]pi = rhs' for PGS only to the "
                "convergence tolerance and only on paths where PGS reports convergence (it is an iterative method; SOR 1.2 is hard-wired so that no path is exact); "
                "sign of the final constraint-space velocity of an off contact after more than one sweep or when coupled rows are updated after it (PGS documents "
@@ -36,7 +38,7 @@ ROWSETS_QUICK = [
     ("cf", 3, 2, ""), ("cmf", 2, 3, ""), ("u1,cf", 4, 2, "applied"), ("cfx", 3, 2, ""), ("cfk", 3, 2, ""),
     ("c,c", 2, 3, ""), ("u1,c", 2, 1, "sep"), ("c,cm", 1, 1, "sep,d0"),
     ("b", 1, 2, ""), ("u1,b,b", 3, 3, ""), ("u2,l2", 4, 2, ""), ("u1,l1", 2, 3, ""), ("s2", 2, 2, ""), ("u1,cf,b", 4, 2, ""),
-    ("cf,cf", 4, 2, ""),
+    ("cf,cf", 4, 1, ""), ("cf,cf", 4, 2, ""),
 ]
 ROWSETS_THOROUGH = ROWSETS_QUICK + [
     ("u3", 2, 3, "tol"), ("u1,u1,u1", 3, 2, "tol,d0"), ("cf", 3, 3, ""), ("cmf", 3, 2, "applied"), ("cfx", 2, 3, ""), ("cfk", 3, 3, ""),
@@ -50,8 +52,8 @@ def instances(tier, seed):
     for rows, K, its, opts in (ROWSETS_QUICK if tier == "quick" else ROWSETS_THOROUGH):
         out.append(dict(name="%s/K%d/it%d%s" % (rows, K, its, "/" + opts if opts else ""), args=[rows, str(K), str(its), opts],
                         paths=6 if tier == "quick" else 40, base_points=1 if tier == "quick" else 3,
-                        flips_per_path=5 if tier == "quick" else 16, abstract_big=True, max_terms=3000,
-                        z3_timeout_ms=20000 if tier == "quick" else 120000, flip_timeout_ms=1000))
+                        flips_per_path=5 if tier == "quick" else 16, abstract_big=True, max_terms=3000, lra_first=True,
+                        z3_timeout_ms=120000 if tier == "quick" else 300000, flip_timeout_ms=1000))
     return out
 
 
